@@ -1,4 +1,5 @@
 """C10 include and embed render the target with the right variables, in isolation."""
+import exectrace
 import simple
 
 
@@ -13,6 +14,10 @@ def check(run, only=None):
                 "non-trivial = host/target share a variable or block name, or a with-hash is passed")
     run.assumptions = ["with-expression is a hash literal; values passed are scalars"]
     simple.gen_and_replay(run, "C10", nontrivial=nontrivial, only=only)
+
+    if only is None:
+        # binding T: seeded random programs over the whole schema, accepted by TLC against the reference executor
+        exectrace.run_exec_trace(run, 10000 if run.tier == "thorough" else 600, 10)
 
 
 def replay(run, path):
